@@ -242,10 +242,25 @@ func genRouter(tp *core.Tape, ip netip.Addr) *storage.StoredRouter {
 
 type mutation func(s storage.Storage)
 
+// lookupsOnly makes genMutations produce nothing but look-ups (and pauses): a session in which
+// the router only reads its state - what it stamps while doing so is state too.
+var lookupsOnly bool
+
 func genMutations(tp *core.Tape, n int, pool *[]netip.Addr, domains *[]string, e *core.Env) []mutation {
 	var muts []mutation
 	for i := 0; i < n; i++ {
-		switch tp.Pick(5, 2, 3, 1, 1) {
+		pick := tp.Pick(5, 2, 3, 1, 1, 2)
+		if lookupsOnly {
+			pick = 5
+		}
+		switch pick {
+		case 5: // look a router up: the storage stamps the record as used now
+			if len(*pool) == 0 {
+				continue
+			}
+			ip := (*pool)[tp.Intn(len(*pool))]
+			muts = append(muts, func(s storage.Storage) { _, _ = s.GetRouter(ip) })
+			e.Probe("router_looked_up_between_load_and_shutdown")
 		case 0: // save new router
 			ip := genAddr(tp)
 			*pool = append(*pool, ip)
@@ -362,7 +377,15 @@ func run(e *core.Env) {
 	if sizeClass == 3 {
 		n1 = 1 + tp.Intn(40)
 	}
-	for _, mu := range genMutations(tp, n1, &pool, &domains, e) {
+	lookupsOnly = len(pool) > 0 && tp.Chance(1, 5)
+	if lookupsOnly {
+		time.Sleep(time.Duration(1+tp.Intn(1<<22)) * time.Millisecond)
+		e.Probe("session_with_look_ups_only")
+	}
+	muts1 := genMutations(tp, n1, &pool, &domains, e)
+	lookupsOnly = false
+	imageSaved := simos.Current().Clone()
+	for _, mu := range muts1 {
 		mu(s1)
 	}
 	mem1 := snap(s1)
@@ -434,11 +457,34 @@ func run(e *core.Env) {
 	})
 	sawOld, sawNew := 0, 0
 	followUps := 0
+	rebuild := false
 	for _, pt := range points {
 		simos.Use(image0.Clone())
 		simos.Current().ArmCrash(pt.op, pt.off)
 		crashed, err := stop(s1)
 		simos.Current().Disarm()
+		if !crashed && err == nil && len(simos.Current().Journal) == 0 && !rebuild {
+			// This storage object has been through a complete Stop() before (the dry run) and
+			// now writes nothing: it remembers that it was saved. A process stops once; from
+			// here on every crash point gets an object of its own with the same history.
+			rebuild = true
+			e.Probe("storage_object_rebuilt_per_crash_point")
+		}
+		if rebuild {
+			simos.Use(imageSaved.Clone())
+			sx, lerr := storage.NewJSONFileStorage(statePath)
+			if lerr != nil {
+				e.Infra("reload for a crash point: %v", lerr)
+			}
+			for _, mu := range muts1 {
+				mu(sx)
+			}
+			mem1 = snap(sx)
+			simos.Use(image0.Clone())
+			simos.Current().ArmCrash(pt.op, pt.off)
+			crashed, err = stop(sx)
+			simos.Current().Disarm()
+		}
 		if !crashed {
 			e.Infra("crash point op=%d off=%d did not fire (err=%v): Stop() is not deterministic", pt.op, pt.off, err)
 		}
